@@ -192,3 +192,16 @@ Theorem C18_eq_routing_is_source : forall t v other,
 Proof. exact (@PointerEqSrc.eq_routing_is_source). Qed.
 Print Assumptions C18_eq_routing_is_source.
 
+
+(* ---- the parameters of pointer / pointer_mut (separator, skipped pieces, ORDER of the replace passes) as TRANSLATED ON THIS RUN (tools/translate_ptr.py) ---- *)
+From SJ Require Import Base.Bytes Model.Value Model.Pointer Gen.PtrTables.
+From SJ Require Import Proofs.PointerSrc.
+Theorem C18_pointer_tokens_are_source : forall p,
+  ptr_tokens p = map (apply_replaces PTR_REPLACES) (skipn PTR_SKIP (split PTR_SEP p)).
+Proof. exact (@PointerSrc.pointer_tokens_are_source). Qed.
+Print Assumptions C18_pointer_tokens_are_source.
+
+Theorem C18_replace_order_is_source : map fst PTR_REPLACES = [pat_t1; pat_t0].
+Proof. exact (@PointerSrc.replace_order_is_rfc). Qed.
+Print Assumptions C18_replace_order_is_source.
+
